@@ -16,11 +16,14 @@ APPLICABLE = {
     'listdir': [E.EACCES, E.EIO, E.EMFILE], 'scandir': [E.EACCES, E.EIO, E.EMFILE], 'getcwd': [E.ENOENT, E.EACCES],
     'open': [E.EACCES, E.EIO, E.EMFILE, E.ENFILE, E.EINTR],
     'fstat': [E.EIO], 'listxattr': [E.ENOTSUP, E.EACCES], 'getxattr': [E.ENOTSUP],
-    'mkdir': [E.EACCES, E.EROFS, E.ENOSPC, E.EDQUOT, E.EIO, E.ENAMETOOLONG, E.EMLINK, E.EPERM],
-    'open_w': [E.EACCES, E.EROFS, E.ENOSPC, E.EDQUOT, E.EIO, E.ENAMETOOLONG, E.EMFILE, E.ENOMEM, E.EINTR, E.EPERM],
+    'mkdir': [E.EACCES, E.EROFS, E.ENOSPC, E.EDQUOT, E.EIO, E.ENAMETOOLONG, E.EMLINK, E.EPERM, E.ENOENT, E.ESTALE],
+    'open_w': [E.EACCES, E.EROFS, E.ENOSPC, E.EDQUOT, E.EIO, E.ENAMETOOLONG, E.EMFILE, E.ENOMEM, E.EINTR, E.EPERM, E.ENOENT, E.ESTALE],
     'write': [E.ENOSPC, E.EDQUOT, E.EIO, E.EFBIG, E.EINTR], 'fwrite': [E.ENOSPC, E.EDQUOT, E.EIO],
     'close': [E.EIO, E.ENOSPC, E.EINTR],
-    'rename': [E.EACCES, E.EPERM, E.EROFS, E.ENOSPC, E.EIO, E.EBUSY, E.EXDEV, E.ENAMETOOLONG, E.EMLINK, E.EDQUOT, E.ENOTEMPTY],
+    'rename': [E.EACCES, E.EPERM, E.EROFS, E.ENOSPC, E.EIO, E.EBUSY, E.EXDEV, E.ENAMETOOLONG, E.EMLINK, E.EDQUOT, E.ENOTEMPTY,
+               # ENOENT / ESTALE although both ends exist: a network or FUSE file system whose handle went stale, a directory removed
+               # and recreated by somebody else in between
+               E.ENOENT, E.ESTALE],
     'unlink': [E.EACCES, E.EPERM, E.EROFS, E.EIO, E.EBUSY], 'remove': [E.EACCES, E.EPERM, E.EROFS, E.EIO, E.EBUSY],
     'rmdir': [E.EACCES, E.EPERM, E.EROFS, E.EIO, E.EBUSY, E.ENOTEMPTY],
     'symlink': [E.EACCES, E.ENOSPC, E.EROFS, E.EIO, E.EPERM], 'sendfile': [E.ENOSPC, E.EIO, E.EINVAL],
